@@ -241,7 +241,8 @@ def build_templates(bdir, rnd, tier):
         T.append(("jose_jwe_enc", [tmpl, NUL, ek], [payload.hex()], tag))
         T.append(("jose_jwe_enc_io", [tmpl, NUL, ek], [payload.hex()], tag))
         T.append(("jose_jwe_enc_jwk", [tmpl, NUL, ek, {}], [], tag))
-        T.append(("jose_jwe_enc_jwk", [tmpl, NUL, ek, G.oct_key(rnd, G.ENC_KEYLEN[enc])], [], tag))
+        if wrap not in ("dir", "ECDH-ES"):
+            T.append(("jose_jwe_enc_jwk", [tmpl, NUL, ek, G.oct_key(rnd, G.ENC_KEYLEN[enc])], [], tag))
         if c != "ERR" and not c.startswith("CRASH"):
             cek = json.loads(c)
             T.append(("jose_jwe_dec_cek", [jwe, cek], [], tag))
@@ -463,19 +464,25 @@ def gen(ctx, T, masked=()):
                 strata[(fn, ai, label, kind)].append((ti, ai, mv))
     budget = 20000 if tier == "quick" else 500000
     keys_ = sorted(strata, key=lambda k: (k[0], k[1], k[2], k[3]))
-    per = max(1, (budget - len(cases)) // max(1, len(keys_)))
     huge_budget = 400 if tier == "quick" else 20000
     for k in keys_:
-        pool = strata[k]
-        rnd.shuffle(pool)
-        is_huge = k[3].endswith("huge") or k[3].endswith("ext-66000")
-        take = pool[:per]
-        if is_huge:
-            if huge_budget <= 0:
-                continue
-            take = take[:1] if tier == "quick" else take
-            huge_budget -= len(take)
-        for ti, ai, mv in take:
+        rnd.shuffle(strata[k])
+    # round r takes the r-th candidate of every stratum: every stratum is covered before any gets a second case
+    r = 0
+    while len(cases) < budget:
+        ks = [k for k in keys_ if len(strata[k]) > r]
+        if not ks:
+            break
+        if len(cases) + len(ks) > budget:
+            rnd.shuffle(ks)
+            ks = ks[:budget - len(cases)] if r > 0 else ks
+        for k in ks:
+            is_huge = k[3].endswith("huge") or k[3].endswith("ext-66000")
+            if is_huge:
+                if huge_budget <= 0 or (r > 0 and tier == "quick"):
+                    continue
+                huge_budget -= 1
+            ti, ai, mv = strata[k][r]
             fn, args, extra, tag = T[ti]
             a2 = list(args)
             a2[ai] = mv
@@ -485,6 +492,9 @@ def gen(ctx, T, masked=()):
             cases.append(c)
             info[c] = (fn, k[3], k[2], ai, tag)
             dist["mut " + k[3].split(":")[0]] += 1
+        r += 1
+        if r > 200:
+            break
     # stage 3 (thorough): two mutations at once
     if tier == "thorough":
         n = min(100000, max(0, budget - len(cases)))
@@ -693,12 +703,12 @@ def correspond(ctx):
     T, problems, keys = build_templates(tb, rnd, ctx["tier"])
     env_extra = {"ASAN_OPTIONS": vlib.SAN_ENV["ASAN_OPTIONS"].replace("detect_leaks=0", "detect_leaks=1") + ":leak_check_at_exit=0:report_objects=1"}
     hbin = os.path.join(bdir, "h")
-    # quick tier: when the VALID call of a template already aborts (sanitizer report), its mutations would all
-    # abort the same way (one process restart and one symbolized report each): they are not run, and counted
+    # when the VALID call of a template already aborts (sanitizer report), its mutations would all abort the same
+    # way (one process restart and one symbolized report each): the valid call is reported, they are not run, and counted
     masked = set()
     aborted = {}
     order = random.Random(ctx["seed"] + 7)
-    if ctx["tier"] == "quick":
+    if True:
         valid = [line(fn, args, extra) for fn, args, extra, tag in T]
         idx = list(range(len(valid)))
         order.shuffle(idx)                      # spread the aborting calls over the shards
@@ -709,7 +719,7 @@ def correspond(ctx):
                 aborted[valid[i]] = o
     cases, info, dist, nstrata = gen(ctx, T, masked)
     dist["template problems"] = len(problems)
-    dist["valid calls that abort (reported; they and their mutations are not re-run in the quick tier)"] = len(masked)
+    dist["valid calls that abort (reported; they and their mutations are not run again)"] = len(masked)
     RAW.clear()
     _NDETAIL[0] = 0
     _KNOWN_SITES.clear()
@@ -729,7 +739,7 @@ def correspond(ctx):
         ctx, cases, oracle, nontrivial,
         rule="valid JWS/JWE/JWK objects of every registered algorithm produced by the library, then single structured mutations (deletion, 8-way type substitution of every member at every depth incl. inside the encoded protected header, string edits, nesting changes, NULL-able arguments of every type) on every argument position of the %d JSON-consuming exports + 2 internal glue functions; %d strata (function, argument, member, mutation kind), every stratum sampled; per call: ASan+UBSan(use-after-scope)+LSan, jansson allocator counted/poisoned, reference counts of all caller nodes compared; non-trivial = call completed with all counts intact" % (len(consumers), nstrata),
         dist=dist, normalize=normalize, env_extra=env_extra,
-        exhaustive_subspaces=["every (function, argument position, member path, mutation kind) stratum of the template set has at least one case (quick tier: except the strata of templates whose valid call aborts)"])
+        exhaustive_subspaces=["every (function, argument position, member path, mutation kind) stratum of the template set has at least one case (except the strata of templates whose valid call aborts: those are reported and counted)"])
     # valid templates must be valid: a refused valid call means the generator (not the library) is wrong
     bad = [c for c in cases if info[c][1] == "valid" and info[c][0] not in ("jose_b64_dec", "jose_b64_dec_load", "jose_b64_enc_dump", "jose_jwk_prm", "jose_jwk_eql", "zip_in_protected_header")
            and "V=fail" in RAW.get(c, "")]
